@@ -251,5 +251,7 @@ def _postprocess_lanczos_root_inv_decomp(linear_op, inv_roots, initial_vectors, 
 
     # Choose solve that best fits
     _, best_solve_index = residuals.min(0)
-    inv_root = inv_roots[best_solve_index].squeeze(0)
+    # (indexing with the 0-dim index already removes the candidate dimension; a further squeeze(0) dropped a batch
+    # dimension of size one)
+    inv_root = inv_roots[best_solve_index]
     return inv_root
